@@ -35,19 +35,27 @@ TUPS = [(0, 1), (1, 2)]
 TWIN = None
 
 
-def _twin_tables():
+def _twin_tables(variant=0):
     fw = {}
     for c in range(100):
-        fw[c] = 20.5 + c if c < 3 else F(2 * c + 1, 2) if c < 6 else c - 9 if c < 9 else 1000 + c     # -3..-1, then 1009..
+        if variant == 0:
+            fw[c] = 20.5 + c if c < 3 else F(2 * c + 1, 2) if c < 6 else c - 9 if c < 9 else 1000 + c     # -3..-1, then 1009..
+        else:
+            # the numeric values of the floats and the Fractions change places: 3.5 is a float here and a Fraction above,
+            # 20.5 the other way round -- equal numbers of different types, met one after the other in one process
+            fw[c] = 3.5 + c if c < 3 else F(2 * c + 35, 2) if c < 6 else c - 9 if c < 9 else 1000 + c
     inv = {(type(v).__name__, float(v)): c for c, v in fw.items()}
     return fw, inv
 
 
 class twin_labels:
-    """context manager: dec / enc use the twin decoding"""
+    """context manager: dec / enc use the twin decoding (variant 0 or 1)"""
+    def __init__(self, variant=0):
+        self.variant = variant
+
     def __enter__(self):
         global TWIN
-        TWIN = _twin_tables()
+        TWIN = _twin_tables(self.variant)
 
     def __exit__(self, *a):
         global TWIN
